@@ -27,13 +27,17 @@ func (p *c07) Setup(env *fw.Env) error {
 	p.N = len(p.pool) + env.Pick(1500, 120000)
 	p.RuleS = fmt.Sprintf("every repository XGo/class file and harvested test snippet (%d) as a single-file package, then generated XGo / class / Go files (syntactic generator, mostly ill-typed), token- and byte-mutated variants of corpus and generated sources (the parser's partial ASTs are compiled too), multi-file packages (2-3 files, XGo + class + Go mixes, duplicate declarations across files), each through cl.NewPackage+WriteTo or through x/build BuildFile/BuildFSDir. Oracle: no panic or runtime fatal error escapes; the cl step hook (compileStmt/compileExpr/typeLoader.load) stays below 200*(tokens)+10^5; every reported error whose text carries file:line:col names a file of the package and a line/column inside it. Non-trivial = the package reached cl.NewPackage; distinct by sources.", len(p.pool))
 	p.Assume = []string{"recover stays enabled (the production default)", "a loop inside gogen that never reaches a cl hook would only trip the wall-clock watchdog (inconclusive)", "errors without a position are ignored for the position check"}
-	p.Floor = map[string]int{"#evaluations": p.N / 2, "#nontrivial": p.N / 3, "reached-cl": p.N / 3, "outcome:ok": 300, "outcome:errors": p.N / 4, "via:x/build": p.N / 30, "kind:multi": p.N / 30, "error-positions-checked": p.N / 4, "parse-error-but-compiled": p.N / 50}
+	p.Floor = map[string]int{"#evaluations": p.N / 2, "#nontrivial": p.N / 3, "reached-cl": p.N / 3, "outcome:ok": 300, "outcome:errors": p.N / 4, "via:x/build": p.N / 30, "with-recorder": p.N / 6, "kind:decl-shapes": p.N / 40, "kind:multi": p.N / 30, "error-positions-checked": p.N / 4, "parse-error-but-compiled": p.N / 50}
 	return nil
 }
 
 func (p *c07) Case(i int) fw.Case {
 	if i < len(p.pool) {
-		return fw.Case{Kind: "corpus", P: map[string]string{"i": fmt.Sprint(i)}}
+		rec := ""
+		if i%3 == 0 {
+			rec = "1"
+		}
+		return fw.Case{Kind: "corpus", P: map[string]string{"i": fmt.Sprint(i), "rec": rec}}
 	}
 	r := p.rnd(i)
 	g := &gen.XSyn{R: r}
@@ -58,13 +62,20 @@ func (p *c07) Case(i int) fw.Case {
 			return "a.xgo", g.File(false)
 		}
 	}
+	rec := ""
+	if r.Chance(1, 3) {
+		rec = "1"
+	}
+	if r.Chance(1, 12) {
+		return fw.Case{Kind: "decl-shapes", Aux: []string{"a.xgo", c07DeclShapes(r)}, P: map[string]string{"via": "cl", "rec": rec}}
+	}
 	switch k := r.Intn(10); {
 	case k < 3:
 		n, s := one()
-		return fw.Case{Kind: "gen", Aux: []string{n, s}, P: map[string]string{"via": via}}
+		return fw.Case{Kind: "gen", Aux: []string{n, s}, P: map[string]string{"via": via, "rec": rec}}
 	case k < 6:
 		n, s := one()
-		return fw.Case{Kind: "tokmut", Aux: []string{n, string(tokenMutate(r, []byte(s), 3))}, P: map[string]string{"via": via}}
+		return fw.Case{Kind: "tokmut", Aux: []string{n, string(tokenMutate(r, []byte(s), 3))}, P: map[string]string{"via": via, "rec": rec}}
 	case k < 7:
 		n, s := one()
 		return fw.Case{Kind: "bytemut", Aux: []string{n, string(gen.Mutate(r, []byte(s), nil, 3))}, P: map[string]string{"via": via}}
@@ -82,7 +93,7 @@ func (p *c07) Case(i int) fw.Case {
 			}
 			aux = append(aux, n, s)
 		}
-		return fw.Case{Kind: "multi", Aux: aux, P: map[string]string{"via": "cl"}}
+		return fw.Case{Kind: "multi", Aux: aux, P: map[string]string{"via": "cl", "rec": rec}}
 	}
 }
 
@@ -132,7 +143,10 @@ func (p *c07) Run(c fw.Case, r *fw.Rec) {
 		}
 		return
 	}
-	res := compileXGo(p.Env.Repo, files, compileOpts{Budget: budget, GenMain: true})
+	if c.P["rec"] != "" {
+		r.Cover("with-recorder")
+	}
+	res := compileXGo(p.Env.Repo, files, compileOpts{Budget: budget, GenMain: true, Recorder: c.P["rec"] != ""})
 	if res.Panic != nil {
 		r.Fail("cl:"+fw.SiteFromPanic(res.Panic, []byte(res.Stack)), "panic escaped the compiler: %v\n%s", res.Panic, firstN(res.Stack, 30))
 		return
@@ -207,4 +221,37 @@ func firstN(s string, n int) string {
 		ls = ls[:n]
 	}
 	return strings.Join(ls, "\n")
+}
+
+// c07DeclShapes draws a file of unusual but parseable declaration shapes: overload declarations with every
+// receiver spelling (none, empty, value, pointer, named) over identifier and operator names with empty, identifier,
+// method-expression and literal candidate lists; methods with empty or multiple receivers; declarations without
+// names; labels on declarations.
+func c07DeclShapes(r *fw.Rand) string {
+	var b strings.Builder
+	b.WriteString("type T struct{ n int }\n\nfunc bar(a int) int { return a }\n\nfunc (t *T) m(a int) int { return a }\n\n")
+	recvs := []string{"", "()", "(T)", "(*T)", "(t T)", "(T, T)", "(_)", "(*)"}
+	names := []string{"foo", "+", "-", "*", "==", "++", "<-", "_"}
+	cands := []string{"()", "(bar)", "(bar; bar)", "((T).m)", "((T).m; bar)", "(func(a int) {}; func(a string) {})", "(func() {})", "(nosuch)", "((T).nosuch)", "((nosuch).m)", "(bar\n(T).m\n)"}
+	for i := 0; i < r.Range(1, 5); i++ {
+		rc := fw.Pick(r, recvs)
+		if rc == "" {
+			fmt.Fprintf(&b, "func %s = %s\n\n", fw.Pick(r, names), fw.Pick(r, cands))
+		} else {
+			fmt.Fprintf(&b, "func %s.%s = %s\n\n", rc, fw.Pick(r, names), fw.Pick(r, cands))
+		}
+	}
+	switch r.Intn(6) {
+	case 0:
+		b.WriteString("func () f1() {}\n")
+	case 1:
+		b.WriteString("func (a, b T) f2() {}\n")
+	case 2:
+		b.WriteString("func (T) + (T) T { return T{} }\n")
+	case 3:
+		b.WriteString("func f3() {\nL:\n\tvar x = 1\n\t_ = x\n\tgoto L\n}\n")
+	case 4:
+		b.WriteString("var _, _ = 1\n\nconst ()\n\ntype ()\n")
+	}
+	return b.String()
 }
